@@ -1388,6 +1388,7 @@ func compileTableExpr(context *funcContext, reg int, ex *ast.TableExpr, ec *expc
 	regbase := reg
 
 	arraycount := 0
+	flushed := 0 // positional items already stored by a SETLIST
 	lastvararg := false
 	for i, field := range ex.Fields {
 		islast := i == len(ex.Fields)-1
@@ -1412,15 +1413,12 @@ func compileTableExpr(context *funcContext, reg int, ex *ast.TableExpr, ec *expc
 			code.AddABC(opcode, tablereg, b, c, sline(ex))
 			reg = regorg
 		}
-		flush := arraycount % FieldsPerFlush
-		if (arraycount != 0 && (flush == 0 || islast)) || lastvararg {
+		pending := arraycount - flushed
+		if (pending != 0 && (pending == FieldsPerFlush || islast)) || lastvararg {
 			reg = regbase
-			num := flush
-			if num == 0 {
-				num = FieldsPerFlush
-			}
-			c := (arraycount-1)/FieldsPerFlush + 1
-			b := num
+			batch := flushed/FieldsPerFlush + 1
+			c := batch
+			b := pending
 			if islast && isVarArgReturnExpr(field.Value) {
 				b = 0
 			}
@@ -1433,8 +1431,9 @@ func compileTableExpr(context *funcContext, reg int, ex *ast.TableExpr, ec *expc
 			}
 			code.AddABC(OP_SETLIST, tablereg, b, c, sline(line))
 			if c == 0 {
-				code.Add(uint32(c), sline(line))
+				code.Add(uint32(batch), sline(line))
 			}
+			flushed = arraycount
 		}
 	}
 	code.SetB(tablepc, int2Fb(arraycount))
